@@ -75,10 +75,12 @@ func runConcurrent(cj *concJob) concObs {
 	}
 	// a few resident peers so that the table has several buckets
 	var n uint64 = 1
+	var residents []common.PeerId
 	for i := 0; i < 32; i++ { // 8 per prefix length 0..3: every bucket keeps free slots
 		id := concID(local, i%4, n)
 		n++
 		raw[mkID(id)] = id
+		residents = append(residents, mkID(id))
 		rt.Update(mkID(id), "a1")
 	}
 	prev := runtime.GOMAXPROCS(0)
@@ -100,23 +102,40 @@ func runConcurrent(cj *concJob) concObs {
 			n += 2
 			pa, pb := mkID(a), mkID(b)
 			raw[pa], raw[pb] = a, b
+			// Even rounds: each fresh id is announced exactly once by exactly two goroutines, so
+			// that a broken check-then-insert leaves its duplicate in the table for the inspection
+			// after the round.  Odd rounds: everybody hammers both ids (a table that already holds a
+			// duplicate may then never return from Bucket.MoveToFront: the watchdog below).
+			pairRound := r%2 == 0
 			withRemove := r%4 == 3
+			res := residents[r%len(residents)]
 			start := make(chan struct{})
 			var wg sync.WaitGroup
 			scripts := make([]string, cj.G)
 			for g := 0; g < cj.G; g++ {
 				wg.Add(1)
 				role := g % 3
+				if pairRound {
+					role = 10 + g%6
+				}
 				switch role {
 				case 0:
 					scripts[g] = "Update(a); Update(b)"
 				case 1:
 					scripts[g] = "Update(a); NearestPeers(a,4); Update(b)"
-				default:
+				case 2:
 					scripts[g] = "Update(b); Update(a)"
 					if withRemove {
 						scripts[g] += "; Remove(b); Update(b)"
 					}
+				case 10, 11:
+					scripts[g] = "Update(a)"
+				case 12, 13:
+					scripts[g] = "Update(b)"
+				case 14:
+					scripts[g] = "NearestPeers(a,4); NearestPeers(b,4)"
+				default:
+					scripts[g] = "Remove(resident); Update(resident)"
 				}
 				go func(g, role int) {
 					defer wg.Done()
@@ -131,39 +150,72 @@ func runConcurrent(cj *concJob) concObs {
 							runtime.Gosched()
 						}
 					}
+					near := func(p common.PeerId, raw []byte) {
+						out := rt.NearestPeers(p, 4)
+						var fs []ofail
+						checkNearestShape(out, raw, round, &fs)
+						for _, f := range fs {
+							f.Class += "-concurrent"
+							f.Got = map[string]interface{}{"observed": f.Got, "goroutine": g, "script": scripts[g], "all_goroutines": scripts}
+							addFail(f)
+						}
+					}
+					addr := fmt.Sprintf("a%d", 1+g%9)
 					<-start
 					switch role {
 					case 0:
-						rt.Update(pa, fmt.Sprintf("a%d", 1+g%9))
+						rt.Update(pa, addr)
 						yield()
-						rt.Update(pb, fmt.Sprintf("a%d", 1+g%9))
+						rt.Update(pb, addr)
 					case 1:
-						rt.Update(pa, fmt.Sprintf("a%d", 1+g%9))
+						rt.Update(pa, addr)
 						yield()
-						out := rt.NearestPeers(pa, 4)
-						var fs []ofail
-						checkNearestShape(out, a, round, &fs)
-						for _, f := range fs {
-							f.Class += "-concurrent"
-							addFail(f)
-						}
-						rt.Update(pb, fmt.Sprintf("a%d", 1+g%9))
-					default:
-						rt.Update(pb, fmt.Sprintf("a%d", 1+g%9))
+						near(pa, a)
+						rt.Update(pb, addr)
+					case 2:
+						rt.Update(pb, addr)
 						yield()
-						rt.Update(pa, fmt.Sprintf("a%d", 1+g%9))
+						rt.Update(pa, addr)
 						if withRemove {
 							rt.Remove(pb)
 							yield()
-							rt.Update(pb, fmt.Sprintf("a%d", 1+g%9))
+							rt.Update(pb, addr)
 						}
+					case 10, 11:
+						yield()
+						rt.Update(pa, addr)
+					case 12, 13:
+						yield()
+						rt.Update(pb, addr)
+					case 14:
+						near(pa, a)
+						yield()
+						near(pb, b)
+					default:
+						rt.Remove(res)
+						yield()
+						rt.Update(res, "a1")
 					}
 				}(g, role)
 			}
 			close(start)
-			wg.Wait()
+			done := make(chan struct{})
+			go func() { wg.Wait(); close(done) }()
+			select {
+			case <-done:
+			case <-time.After(3 * time.Second):
+				addFail(ofail{"no-return-concurrent", "a call did not return within 3 s while other goroutines were using the table (the table lock or a bucket lock is still held, so the table cannot be inspected)", round,
+					map[string]interface{}{"round": round, "scheduler": o.Settings[len(o.Settings)-1], "a": hx.Hex(a), "b": hx.Hex(b), "cpl_a": ka, "cpl_b": kb2, "goroutines": scripts},
+					"every call returns"})
+				o.Ms = time.Since(t0).Milliseconds()
+				return o
+			}
 			o.Rounds++
-			o.Calls += 2*cj.G + cj.G/3
+			if pairRound {
+				o.Calls += cj.G + 2
+			} else {
+				o.Calls += 2*cj.G + cj.G/3
+			}
 			// the round is over: nobody else touches the table now
 			ba, bb := bucketHex(rt, ka), bucketHex(rt, kb2) // before the round's ids are removed again
 			state := func() interface{} {
